@@ -16,6 +16,7 @@ import JP.RegexImpl
 import JP.Fluent
 import JP.Typing
 import JP.Projection
+import JP.Surface
 open Lean JP
 
 namespace Drv
@@ -284,6 +285,82 @@ def encOut : Fluent.Out Nat → Json
 def encRun (r : List (Fluent.Out Nat) × List Nat) : Json :=
   Json.mkObj [("outs", .arr (r.1.map encOut).toArray), ("final", encNats r.2)]
 
+
+/-! AST and token encoders (for the surface-syntax operations) -/
+def encOp : CmpOp → String
+  | .eq => "==" | .ne => "!=" | .lt => "<" | .gt => ">" | .le => "<=" | .ge => ">=" | .lg => "<>"
+  | .and => "&&" | .or => "||" | .in_ => "in" | .contains => "contains" | .re => "=~"
+
+def jInt (i : Int) : Json := .num ⟨i, 0⟩
+def jOptInt : Option Int → Json
+  | none => .null
+  | some i => jInt i
+
+mutual
+  partial def encExpr : Expr → Json
+    | .nil => Json.mkObj [("t", "nil")]
+    | .undefined => Json.mkObj [("t", "undef")]
+    | .bool b => Json.mkObj [("t", "bool"), ("v", .bool b)]
+    | .int i => Json.mkObj [("t", "int"), ("v", jInt i)]
+    | .flt m => Json.mkObj [("t", "flt"), ("m", jInt m)]
+    | .str v => Json.mkObj [("t", "str"), ("v", .str (l2s v))]
+    | .regex p f => Json.mkObj [("t", "regex"), ("p", .str (l2s p)), ("f", .str (l2s f))]
+    | .list items => Json.mkObj [("t", "list"), ("items", .arr (items.map encExpr).toArray)]
+    | .not e => Json.mkObj [("t", "not"), ("e", encExpr e)]
+    | .infix l op r => Json.mkObj [("t", "infix"), ("l", encExpr l), ("op", .str (encOp op)), ("r", encExpr r)]
+    | .self q => Json.mkObj [("t", "self"), ("q", encSegs q)]
+    | .root q fake => Json.mkObj [("t", "root"), ("q", encSegs q), ("fake", .bool fake)]
+    | .ctx q => Json.mkObj [("t", "ctx"), ("q", encSegs q)]
+    | .func name args => Json.mkObj [("t", "func"), ("name", .str (l2s name)), ("args", .arr (args.map encExpr).toArray)]
+    | .key => Json.mkObj [("t", "key")]
+  partial def encSel : Sel → Json
+    | .name v => Json.mkObj [("s", "name"), ("v", .str (l2s v))]
+    | .index i => Json.mkObj [("s", "index"), ("v", jInt i)]
+    | .slice a b c => Json.mkObj [("s", "slice"), ("a", jOptInt a), ("b", jOptInt b), ("c", jOptInt c)]
+    | .wild => Json.mkObj [("s", "wild")]
+    | .keys => Json.mkObj [("s", "keys")]
+    | .filter e => Json.mkObj [("s", "filter"), ("e", encExpr e)]
+  partial def encSegs (segs : List Seg) : Json :=
+    .arr (segs.map (fun g => match g with
+      | .desc => Json.mkObj [("g", "desc")]
+      | .child sels => Json.mkObj [("g", "child"), ("sels", .arr (sels.map encSel).toArray)])).toArray
+end
+
+def encTok : Surface.Tok → Json
+  | .root => "ROOT" | .fakeRoot => "FAKE_ROOT" | .self => "SELF" | .key => "KEY" | .ctx => "FILTER_CONTEXT" | .keys => "KEYS"
+  | .wild => "WILD" | .filter => "FILTER" | .lbracket => "LBRACKET" | .rbracket => "RBRACKET" | .comma => "COMMA"
+  | .lparen => "LPAREN" | .rparen => "RPAREN" | .ddot => "DDOT" | .not => "NOT" | .true_ => "TRUE" | .false_ => "FALSE"
+  | .nil => "NIL" | .undefined => "UNDEFINED"
+  | .op o => Json.arr #["OP", .str (encOp o)]
+  | .prop v => Json.arr #["PROP", .str (l2s v)]
+  | .bare v => Json.arr #["BARE", .str (l2s v)]
+  | .str v => Json.arr #["STR", .str (l2s v)]
+  | .int i => Json.arr #["INT", jInt i]
+  | .flt m => Json.arr #["FLOAT", jInt m]
+  | .slice a b c => Json.arr #["SLICE", jOptInt a, jOptInt b, jOptInt c]
+  | .re p f => Json.arr #["RE", .str (l2s p), .str (l2s f)]
+  | .func n => Json.arr #["FUNC", .str (l2s n)]
+
+def decTok (j : Json) : Except String Surface.Tok :=
+  match j with
+  | .str "ROOT" => pure .root | .str "FAKE_ROOT" => pure .fakeRoot | .str "SELF" => pure .self | .str "KEY" => pure .key
+  | .str "FILTER_CONTEXT" => pure .ctx | .str "KEYS" => pure .keys | .str "WILD" => pure .wild | .str "FILTER" => pure .filter
+  | .str "LBRACKET" => pure .lbracket | .str "RBRACKET" => pure .rbracket | .str "COMMA" => pure .comma
+  | .str "LPAREN" => pure .lparen | .str "RPAREN" => pure .rparen | .str "DDOT" => pure .ddot | .str "NOT" => pure .not
+  | .str "TRUE" => pure .true_ | .str "FALSE" => pure .false_ | .str "NIL" => pure .nil | .str "UNDEFINED" => pure .undefined
+  | .arr #[.str "OP", .str o] => do pure (.op (← decOp o))
+  | .arr #[.str "PROP", .str v] => pure (.prop (s2l v))
+  | .arr #[.str "BARE", .str v] => pure (.bare (s2l v))
+  | .arr #[.str "STR", .str v] => pure (.str (s2l v))
+  | .arr #[.str "INT", .num n] => pure (.int n.mantissa)
+  | .arr #[.str "FLOAT", .num n] => pure (.flt n.mantissa)
+  | .arr #[.str "SLICE", a, b, c] => do pure (.slice (← optInt a) (← optInt b) (← optInt c))
+  | .arr #[.str "RE", .str p, .str f] => pure (.re (s2l p) (s2l f))
+  | .arr #[.str "FUNC", .str n] => pure (.func (s2l n))
+  | _ => throw s!"bad token {j.compress}"
+
+def sfPrec : Surface.Prec := Surface.precOfGenerated Generated.parserPrecConsts Generated.precedences
+
 def handle (req : Json) : Except String Json := do
   let op ← req.getObjVal? "op"
   let .str op := op | throw "op must be a string"
@@ -477,6 +554,23 @@ def handle (req : Json) : Except String Json := do
     | none => pure (Json.mkObj [("none", .null)])
     | some none => pure (Json.mkObj [("outside", .null)])
     | some (some r) => pure (Json.mkObj [("ok", encJ r)])
+  | "sf.ptoks" =>
+    let path ← decPath (← req.getObjVal? "path")
+    pure (Json.mkObj [("tokens", .arr ((Surface.ptoksPath path).map encTok).toArray),
+                      ("parsed", .bool (Surface.parsedSegs path.segs)),
+                      ("norm", encSegs (Surface.normSegs path.segs)),
+                      ("reparse", match Surface.parseQuery sfPrec (Surface.ptoksPath path) with
+                        | .ok p => Json.mkObj [("ok", Json.mkObj [("segs", encSegs p.segs), ("fake", .bool p.fake)])]
+                        | .error .syntax => Json.mkObj [("err", "syntax")]
+                        | .error .fuel => Json.mkObj [("err", "fuel")])])
+  | "sf.parse" =>
+    let toksJ ← req.getObjVal? "tokens"
+    let .arr toksA := toksJ | throw "tokens"
+    let toks ← toksA.toList.mapM decTok
+    match Surface.parseQuery sfPrec toks with
+    | .ok p => pure (Json.mkObj [("ok", Json.mkObj [("segs", encSegs p.segs), ("fake", .bool p.fake)])])
+    | .error .syntax => pure (Json.mkObj [("err", "syntax")])
+    | .error .fuel => pure (Json.mkObj [("err", "fuel")])
   | "q.slice" =>
     let len ← req.getObjValAs? Nat "len"
     let a ← optInt (← req.getObjVal? "a")
